@@ -220,9 +220,11 @@ def check(prop_id, tier, seed):
         return None
 
     for r in task_results:
+        r["known_hits"] = 0
         for v in r.get("violations", []):
             k = known_match(v.get("key", ""))
             if k is not None:
+                r["known_hits"] += 1
                 kid = k.get("key") or k.get("key_prefix") or k.get("key_regex")
                 if not any(x["key"] == kid for x in known_seen):
                     known_seen.append({"key": kid, "what": k.get("what", v.get("what")), "example": v.get("key")})
@@ -280,9 +282,15 @@ def check(prop_id, tier, seed):
     level = prop.LEVEL
     if (undecided or n_dis < n_ob) and level == "proof":
         level = "other"
+    # closed obligations inside the region of a listed known finding are excluded from the claim
+    # (DESIGN 2.8): they are reported under known_findings_seen, not counted as obligations
+    ev_ob = sum(r.get("evaluations", 0) - r.get("known_hits", 0) for r in eval_tasks)
+    ev_dis = sum(r.get("evaluations", 0) - len(r.get("violations", [])) for r in eval_tasks)
+    if n_ob + ev_ob != n_dis + ev_dis and level == "proof":
+        level = "other"
     cov = {
-        "obligations": n_ob + sum(r.get("evaluations", 0) for r in eval_tasks),
-        "discharged": n_dis + sum(r.get("evaluations", 0) - len(r.get("violations", [])) for r in eval_tasks),
+        "obligations": n_ob + ev_ob,
+        "discharged": n_dis + ev_dis,
         "smt_obligations": n_ob, "smt_discharged": n_dis,
         "backends": backend_counts,
         "solver_time_s": round(solver_time, 2),
